@@ -22,6 +22,7 @@ theorem inv_init : Inv init := by
 theorem inv_step (σ σ' : State) (l : Label) (h : Inv σ) (st : Step σ l σ') : Inv σ' := by
   obtain ⟨h1, h2, h3, h4, h5, h6, h7⟩ := h
   cases st with
+  | serveStart hs => constructor <;> simp_all
   | accept hs hl => constructor <;> simp_all
   | acceptFail hs hl hd => constructor <;> simp_all
   | register c hs hd => constructor <;> simp_all <;> omega
@@ -95,14 +96,28 @@ theorem C11_no_add_after_listener_closed (σ σ' : State) (l : Label) (h : Reach
   have hd : σ.done = true := inv.signalled_done (by rcases hp with h | h | h | h <;> simp [h])
   cases st <;> simp_all
 
+/-- Shutdown BEFORE Serve: whatever happened before, a Serve that starts once the signal is set never starts a session - the
+    first connection it accepts is closed and it returns nil (a corollary of the two theorems above, spelled out) -/
+theorem C11_serve_after_shutdown (σ σ1 σ2 σ3 : State) (hd : σ.done = true) (st1 : Step σ .serveStart σ1) (st2 : Step σ1 .accept σ2)
+    (l : Label) (st3 : Step σ2 l σ3) (hl : l = .register ∨ l = .closeLate) :
+    σ3.started = σ.started ∧ σ3.lateClosed = σ.lateClosed + 1 ∧ σ3.serve = .returned false := by
+  have h1 := C11_no_start_after_signal σ σ1 _ hd st1
+  have h2 := C11_no_start_after_signal σ1 σ2 _ h1.2 st2
+  cases st1
+  cases st2
+  rename_i hs1 hs2 hl2
+  have := C11_late_conn_closed _ σ3 _ rfl (by simpa using hd) l st3 hl
+  simp_all [State.started]
+
 /-! ### non-vacuity: a reachable state in which Shutdown returned nil after a session was started and ended,
     with Shutdown landing between Accept returning a second connection and its registration -/
-def w1 : State := { init with serve := .gotConn 1, nextConn := 2 }
+def w0 : State := { init with serve := .accepting, lSet := true }
+def w1 : State := { w0 with serve := .gotConn 1, nextConn := 2 }
 def w2 : State := { w1 with serve := .accepting, wg := 1, running := 1 }
 def w3 : State := { w2 with serve := .gotConn 2, nextConn := 3 }
 def w4 : State := { w3 with sd := .signalled, done := true }
 def w5 : State := { w4 with serve := .returned false, lateClosed := 1 }
-def w6 : State := { w5 with sd := .listenerClosed, listenerOpen := false }
+def w6 : State := { w5 with sd := .listenerClosed, listenerOpen := false, lSet := false }
 def w7 : State := { w6 with sd := .waiting }
 def w8 : State := { w7 with running := 0, connClosed := 1 }
 def w9 : State := { w8 with connClosed := 0, ended := 1, wg := 0 }
@@ -110,7 +125,8 @@ def w10 : State := { w9 with waiterSawZero := true }
 def w11 : State := { w10 with sd := .returnedNil }
 
 theorem w11_reachable : Reachable w11 := by
-  have r1 : Reachable w1 := .step _ _ _ .init (Step.accept init rfl rfl)
+  have r0 : Reachable w0 := .step _ _ _ .init (Step.serveStart init rfl)
+  have r1 : Reachable w1 := .step _ _ _ r0 (Step.accept w0 rfl rfl)
   have r2 : Reachable w2 := .step _ _ _ r1 (Step.register w1 1 rfl rfl)
   have r3 : Reachable w3 := .step _ _ _ r2 (Step.accept w2 rfl rfl)
   have r4 : Reachable w4 := .step _ _ _ r3 (Step.sdSignal w3 rfl)
